@@ -1,3 +1,6 @@
+/* NOT REGISTERED: experimental harness. Neither the full variant nor -DFEW_POINTS -DPUSH_ONLY reached a verdict within 10-15 min
+ * (the owner's whole operations, with array growth and malloc, at every thief step are too much for one SAT query), so no check
+ * uses it. Kept as a starting point; see seed C02c in DESIGN.md section 8. */
 /* E1 harness for C02 (work-stealing deque): ONE real wsd_work_stealing_deque_steal (src/work_stealing_deque.c, unmodified,
  * #included below) against the OWNER, whose complete real push_bottom / pop_bottom calls run at every point where the thief
  * touches shared memory (after its loads of top and bottom, before its read of the slot - i.e. after it picked up the array
